@@ -61,6 +61,69 @@ def impl_load(text, size=None):
         return sim, A.map_load_exc(e)
 
 
+def text_load_tie(text, spec, sim, err, model):
+    """load_program(text) against the model's lexer + assembler on the SAME TEXT (Model/ToyLex.v toy_load_text, request 91):
+    no Python-side token conversion in between"""
+    r = model.call([91, spec, [ord(c) for c in text]])
+    merr = r[0][0] if r[0] else None
+    if err is not None:
+        if merr is None or (merr[:2] != err[:2] and not (merr[0] == 11 and err[0] == 11)):
+            return [("disagreement", f"load of the source text: impl {err}, model lexer+assembler {merr}")]
+        return []
+    if merr is not None:
+        return [("disagreement", f"model lexer+assembler rejects the text with {merr}, the implementation loads it")]
+    d = T.first_diff(T.obs_toy(sim, getters=True), T.norm_model_toy([[[], r[1]]], True)[0][1], "state")
+    return [("disagreement", "state after loading the source text (model lexer+assembler): " + d)] if d else []
+
+
+class ToyLex(Slice):
+    """the TOY tokenizer inside the model (Model/ToyLex.v) against the real pyparsing tokenizer: whole texts (line numbers,
+    name interning, first error) and every distinct line on its own"""
+    name = "toy-lex"
+    promote_disagreement = False
+
+    def gen(self, rng, index, tier):
+        import toylex_corr as L
+        name = ["wf", "mal", "mut", "uni", "rnd"][index % 5]
+        return {"stream": name, "text": L.STREAMS[name](rng)}
+
+    def run(self, case, model):
+        import toylex_corr as L
+        text = case["text"]
+        findings, cl = [], {"stream:" + case.get("stream", "corpus")}
+        for t in [text] + [ln for ln in dict.fromkeys(text.splitlines()) if ln != text][:12]:
+            a = L.impl(t)
+            r = model.call([90, [ord(c) for c in t]])
+            b = ("ok", r[0][1:]) if r[0][0] == 0 else (("syntax", r[0][1]) if r[0][0] == 1 else ("modelerror", r[0]))
+            if not r[1]:
+                cl.add("outside-domain")
+            if a[0] == "convert":
+                cl.add("convert-error")
+                if b[0] != "syntax":
+                    findings.append(("disagreement", f"real tokenizer output not convertible ({a[1]}) for {t!r}; model lexer says {b[0]}"))
+                continue
+            cl.add("syntax" if a[0] == "syntax" else ("tokens" if a[1] else "blank"))
+            if json_norm(list(a)) != json_norm(list(b)):
+                findings.append(("disagreement", f"{t!r}: real tokenizer {str(a)[:200]} model lexer {str(b)[:200]}"))
+        return findings[:2], cl
+
+    def nontrivial(self, classes):
+        return "tokens" in classes
+
+    def required_classes(self, tier):
+        return ["tokens", "syntax", "blank", "stream:wf", "stream:mal", "stream:mut", "stream:uni", "stream:rnd"]
+
+    def shrink(self, case):
+        lines = case["text"].splitlines()
+        for i in range(len(lines)):
+            yield dict(case, text="\n".join(lines[:i] + lines[i + 1:]))
+
+
+def json_norm(x):
+    import json
+    return json.loads(json.dumps(x))
+
+
 class ToyAsm(Slice):
     name = "toy-asm"
     promote_disagreement = True
@@ -80,6 +143,7 @@ class ToyAsm(Slice):
                 findings.append(("disagreement", f"tokenizer rejects line {tk[1]} but load_program reported {err}"))
             return findings, cl
         spec = [size, [], 0, 1, [], []]
+        findings += text_load_tie(text, spec, sim, err, model)
         r = model.call([10, spec, [[5, tk[1]]]])
         (mo, mstate) = r[1]
         merr = mo[0][0] if mo and mo[0] else None
@@ -167,7 +231,8 @@ class ToyAsm(Slice):
 
 
 def slices():
-    return [ToyDecode(), ToyAsm()]
+    return [ToyDecode(), ToyAsm(), ToyLex()]
 
 
-BUDGET = {"quick": {"toy-decode": "exhaustive", "toy-asm": 1500}, "thorough": {"toy-decode": "exhaustive", "toy-asm": 40000}}
+BUDGET = {"quick": {"toy-decode": "exhaustive", "toy-asm": 1500, "toy-lex": 2500},
+          "thorough": {"toy-decode": "exhaustive", "toy-asm": 40000, "toy-lex": 60000}}
